@@ -19,6 +19,22 @@ func verifPoint(name string, a, b int64, ref any) {
 	}
 }
 
+// VerifQ, when non-nil, is called at named points of the read path (query_exec.go,
+// query_results.go, query_handles.go), after the step the point names has taken
+// effect, on the goroutine that took it. q identifies the query (nil at the handle
+// pool's points, which belong to the calling worker's query); pointer is the file.
+var VerifQ func(name string, q any, pointer []byte, a, b int)
+
+func verifQ(name string, r *Results, pointer []byte, a, b int) {
+	if f := VerifQ; f != nil {
+		var q any
+		if r != nil {
+			q = r
+		}
+		f(name, q, pointer, a, b)
+	}
+}
+
 // VerifFS, when non-nil, is called immediately before each filesystem
 // mutation of FileSystemDataStore (and once after a successful publish). A
 // non-nil return is reported by the store as that operation's failure.
